@@ -227,6 +227,110 @@ def run_views(n, regs, names, psi, nshots, ops, chooser, permfn, batch=None, dm=
     finally:
         qibo.set_batch_size(old)
     return outs, backend.calls, fs.perms, real_names
+
+
+def _full(n, m, qs):
+    """matrix on the ordered qubits qs embedded in n qubits (qubit 0 = most significant)."""
+    d, k = 2 ** n, len(qs)
+    U = np.zeros((d, d), dtype=complex)
+    for x in range(d):
+        xb = [(x >> (n - 1 - q)) & 1 for q in range(n)]
+        i = int("".join(str(xb[q]) for q in qs), 2) if k else 0
+        for a in range(2 ** k):
+            yb = list(xb)
+            for t, q in enumerate(qs):
+                yb[q] = (a >> (k - 1 - t)) & 1
+            U[x, int("".join(map(str, yb)), 2)] += m[i][a]
+    return U
+
+
+def spec_circuit(n, dm, items, state):
+    """numpy SPEC of one shot.  items: ("G", matrix, qubits) | ("M", targets, bits-or-None) |
+    ("C", mi, j, q) = RX(q, pi * bit j of measurement mi)."""
+    d = 2 ** n
+    recs = []
+    st = np.array(state, dtype=complex)
+    for it in items:
+        if it[0] == "G":
+            U = _full(n, it[1], it[2])
+        elif it[0] == "C":
+            U = _full(n, [[0, -1j], [-1j, 0]], [it[3]]) if recs[it[1]][it[2]] == 1 else np.eye(d)
+        else:
+            recs.append(it[2])
+            if it[2] is None:
+                continue
+            U = np.diag([1.0 if all(((x >> (n - 1 - q)) & 1) == b for q, b in zip(it[1], it[2])) else 0.0 for x in range(d)])
+        st = U @ st @ U.conj().T if dm else U @ st
+    return st
+
+
+def check_plan(n, dm, plan, psi, nshots, chooser):
+    """build the circuit of `plan` (("G", matrix, qubits) | ("M", targets, explicit_collapse) |
+    ("C", mi, j, q)), execute it on the real code with the given draws, and compare with the
+    SPEC: returns None or a description of the violation."""
+    c = Circuit(n, density_matrix=dm)
+    handles, mts, expl, touched = [], [], [], []
+    for it in plan:
+        if it[0] == "G":
+            c.add(gates.Unitary(np.array(it[1], dtype=complex), *it[2], check_unitary=False))
+            touched.append(set(it[2]))
+        elif it[0] == "M":
+            handles.append(c.add(gates.M(*it[1], collapse=True) if it[2] else gates.M(*it[1])))
+            mts.append(list(it[1])); expl.append(it[2]); touched.append(None)
+        else:
+            c.add(gates.RX(it[3], theta=np.pi * handles[it[1]].symbols[it[2]]))
+            touched.append({it[3]})
+    midx = [i for i, it in enumerate(plan) if it[0] == "M"]
+    status = []
+    for k_, i in enumerate(midx):
+        later = set()
+        for g in touched[i + 1:]:
+            if g:
+                later |= g
+        status.append("collapse" if expl[k_] or (set(mts[k_]) & later) else "final")
+    finals = [k_ for k_, s_ in enumerate(status) if s_ == "final"]
+    fq = [q for k_ in finals for q in mts[k_]]
+    be = OracleBackend(chooser)
+    psi = np.asarray(psi, dtype=complex)
+    init = np.outer(psi, psi.conj()) / np.vdot(psi, psi).real if dm else psi / np.linalg.norm(psi)
+    res = be.execute_circuit(c, initial_state=init.copy(), nshots=nshots)
+    for s in range(nshots):
+        items, mi = [], 0
+        for it in plan:
+            if it[0] == "M":
+                bits = None
+                if status[mi] == "collapse":
+                    bits = [int(x) for x in np.asarray(handles[mi].samples()[s]).reshape(-1)]
+                    if len(bits) != len(mts[mi]) or set(bits) - {0, 1}:
+                        return "recorded bits %r of M%r malformed" % (bits, tuple(mts[mi]))
+                items.append(("M", mts[mi], bits)); mi += 1
+            else:
+                items.append(it)
+        model = spec_circuit(n, dm, items, init)
+        tot = np.trace(model).real if dm else np.vdot(model, model).real
+        if tot <= 1e-9:
+            return "shot %d: the recorded mid-circuit outcomes have probability zero" % s
+        if dm:
+            real = np.asarray(res.state())
+            if abs(np.trace(real)) < 1e-12 or not np.allclose(real / np.trace(real), model / tot, atol=1e-8):
+                return "final state is not the normalised projection onto the recorded outcomes followed by the later gates"
+        if finals:
+            rows = np.asarray(res.samples())
+            if rows.shape != (nshots, len(fq)):
+                return "samples shape %r" % (rows.shape,)
+            marg = born_np(model, n, fq)
+            if marg[int("".join(str(int(b)) for b in rows[s]), 2)] <= 1e-9 * marg.sum():
+                return "shot %d: reported final sample %r on qubits %r has probability zero given the recorded mid-circuit outcomes" % (s, rows[s].tolist(), fq)
+    for h_, st_ in zip(handles, status):
+        if st_ == "collapse":
+            last = [int(x) for x in np.asarray(h_.samples()[-1]).reshape(-1)]
+            if [int(sy.outcome()) for sy in h_.symbols] != last:
+                return "symbols do not report the recorded bits"
+    if finals:
+        got = list(res.samples(registers=True).keys())
+        if got != ["register%d" % k_ for k_ in finals]:
+            return "register names %r" % (got,)
+    return None
 '''
 
 H = {}
@@ -916,6 +1020,10 @@ def collapse_circuits(ctx):
         why = None
         try:
             why = _circ_eval(ctx, run, per_run.get(ri, []))
+            if why is None:
+                # independent numpy SPEC on a fresh execution with fresh draws
+                pl_ = [("G", it[2][0].tolist(), list(it[2][1])) if it[0] == "G" else tuple(it) for it in plan]
+                why = H["check_plan"](n, dm, pl_, psi, nshots, support_chooser(ctx.rng))
         except Exception as e:  # noqa
             why = f"{type(e).__name__}: {e}"
         if len(ctx.samples) < 10 and ri < 2:
@@ -923,8 +1031,10 @@ def collapse_circuits(ctx):
         if why:
             bad += 1
             key = "collapse-order:unsorted-targets" if unsorted_m else "collapse-circuit:" + ("dm" if dm else "sv")
-            py = "# circuit (qibo order): " + "; ".join(descr) + f"\n# initial state {psi.tolist()}, draws {calls}\n"
-            if unsorted_m:
+            pl = [("G", it[2][0].tolist(), list(it[2][1])) if it[0] == "G" else tuple(it) for it in plan]
+            py = (replay_header() + "# circuit (qibo order): " + "; ".join(descr) + f"\nplan = {pl!r}\n"
+                  f"why = check_plan({n}, {dm}, plan, np.array({psi.tolist()}), {nshots}, Tape({calls!r}))\nassert why is None, why\n")
+            if unsorted_m and False:
                 py = (replay_header() + "c = Circuit(2, density_matrix=True)\nc.add(gates.X(1))\nm = c.add(gates.M(1, 0, collapse=True))\n"
                       "NumpyBackend().execute_circuit(c, nshots=1)\nrec = [int(x) for x in m.samples()[-1]]\n"
                       "assert rec == [1, 0], (rec, 'bit j must belong to the j-th listed qubit')\n")
@@ -1043,12 +1153,12 @@ def repeated_views(ctx):
                 err = "answers changed after probabilities() was called"
         except Exception as e:  # noqa
             T, outs, real_names, err = [], [], [], f"{type(e).__name__}: {e}"
-        runs.append((n, cq, regs, ops, nshots, T, outs, real_names, names, err, be.calls))
+        runs.append((n, cq, regs, ops, nshots, T, outs, real_names, names, err, be.calls, locals().get("pq")))
         lines.append(views_line(regs, 1, T, [], [], ops))
     mouts = run_driver(lines, driver=DRIVER)
     bad = 0
     for run, mout in zip(runs, mouts):
-        (n, cq, regs, ops, nshots, T, outs, real_names, names, err, calls) = run
+        (n, cq, regs, ops, nshots, T, outs, real_names, names, err, calls, pq) = run
         model = [x.strip() for x in mout.split("|")]
         ctx.case(("repeated", n, tuple(map(tuple, regs)), tuple(map(str, ops))))
         ctx.stat("repeated_views")
@@ -1077,6 +1187,13 @@ def repeated_views(ctx):
                   f"ops = {ops!r}\nnames = [m.register_name for m in c.measurements]\n"
                   f"outs = [canon(op, call_op(op, res, handles), {regs!r}, names, {nshots}) for op in ops]\n"
                   f"assert outs[{i}] == {exp!r}, (outs[{i}], {exp!r})\n")
+            if op[0] == "probs":
+                flat = [q for r_ in regs for q in r_]
+                py = (replay_header() + f"c = Circuit({n})\n{build}be = OracleBackend(Tape({calls!r}))\nres = be.execute_circuit(c, nshots={nshots})\n"
+                      f"flat = {flat!r}; pq = {pq!r}; T = [int(x) for x in res.samples(binary=False)]\nexp = np.zeros(2 ** len(pq))\n"
+                      f"for sdec in T:\n    bits = [(sdec >> (len(flat) - 1 - j)) & 1 for j in range(len(flat))]\n"
+                      f"    exp[int(''.join(str(bits[flat.index(q)]) for q in pq), 2)] += 1 / {nshots}\n"
+                      f"got = np.asarray(res.probabilities(pq), dtype=float)\nassert np.allclose(got, exp, atol=1e-9), (got, exp)\n")
             ctx.fail(key, f"repeated execution, registers {regs}, history {[op_name(o) for o in ops]}: call #{i} {op_name(op)} is not the view of the reported samples {T}",
                      py, expected=exp, observed=got, broken=["C03_corr_collapse"])
     return bad
